@@ -573,6 +573,14 @@ impl<'me> ClaimGuard<'me> {
         if state.get().claimed_twice {
             state.get_mut().claimed_twice = false;
             state.get_mut().id = SyncOwner::Transferred;
+            // Threads that blocked on this query while we held it point at this thread. The query
+            // is owned through its transfer chain again: make their edges say so, or later
+            // `depends_on` checks (cycle detection, lock transfers) follow a stale edge.
+            if state.get().anyone_waiting {
+                self.zalsa
+                    .runtime()
+                    .repoint_transferred_dependents(self.database_key_index());
+            }
             #[cfg(salsa_rs_salsa_verif)]
             crate::verif_proto::record(&[
                 crate::verif_proto::P::S("release_self"),
